@@ -969,6 +969,15 @@ func (e *Evaluator) evalBangOperatorExp(
 		return TRUE
 	}
 
+	// booleans and nil that come from the data map or from
+	// functions are not the evaluator's singletons
+	switch right := right.(type) {
+	case *object.Bool:
+		return nativeBoolToBooleanObject(!right.Value)
+	case *object.Nil:
+		return TRUE
+	}
+
 	return e.newError(node, fail.ErrPrefixOperatorIsWrong,
 		"!", right.Type())
 }
